@@ -987,6 +987,67 @@ def _shifted_energy(repo: Repo, e: ast.AST):
     return None
 
 
+class _NPlace:
+    """placeholder of a number operator in the model: N_label, possibly shifted"""
+
+    def __init__(self, label, shift=0):
+        self.label, self.shift = label, shift
+
+    def model_binop(self, op, other, swapped):
+        if not isinstance(other, int):
+            return NotImplemented
+        if op == "Add":
+            return _NPlace(self.label, self.shift + other)
+        if op == "Sub" and not swapped:
+            return _NPlace(self.label, self.shift - other)
+        return NotImplemented
+
+    def __eq__(self, o):
+        return isinstance(o, _NPlace) and (self.label, self.shift) == (o.label, o.shift)
+
+    def __hash__(self):
+        return hash((self.label, self.shift))
+
+    def __repr__(self):
+        return f"N[{self.label}]{self.shift:+d}" if self.shift else f"N[{self.label}]"
+
+
+def _shift_table_on_model(repo: Repo, f, dc: ast.DictComp, S: str, R: str) -> dict:
+    """Which replacement table a comprehension of solve_scalar builds, read on models with one operator of each class: the table of
+    H_jj (annihilation powers: N -> N + delta for boson / ladder modes, 1 for spin / fermion modes, nothing else), the table of H_ii
+    (creation powers: N -> N - delta, 1), or something else."""
+    from .concrete import Model, Obj
+    from .e10 import operator_classes
+    tags, inf, counts = operator_classes(repo, R)
+    ops = tuple(Obj(t, t) for t in tags)
+    places = tuple(_NPlace(t) for t in tags)
+    paths = {"Y.operators": ops, "operators": ops, "Y._number_operator_placeholders": places, "Y._n_inf_order": len(inf),
+             "sympy.S.One": "ONE", "S.One": "ONE", "sympy.S.Zero": "ZERO"}
+    for attr, t in counts.items():
+        paths[f"Y.{attr}"] = 1
+    verdicts = set()
+    for shift in ((2, 3, 1, 1), (-2, -3, -1, -1), (2, -3, 1, -1), (0, 0, 0, 0), (-1, 2, -1, 1)):
+        m = Model(R, "solve_scalar", names={"One": "ONE", "Zero": "ZERO", "__classes__": tuple(tags) + ("SigmaPlus", "SigmaOpBase"), S: shift},
+                  paths=dict(paths), subclasses={"SigmaOpBase": {"SigmaMinus", "SigmaPlus"}},
+                  funcs={"NumberOperator": lambda op: ("Nop", op), "_number_operator_to_placeholder": lambda x: _NPlace(x[1].label)})
+        env = {}
+        # locals the comprehension reads (e.g. `placeholders = Y._number_operator_placeholders`, `operators = Y.operators`)
+        for st in [x for x in ast.walk(f) if isinstance(x, ast.Assign) and len(x.targets) == 1 and isinstance(x.targets[0], ast.Name)]:
+            try:
+                m._block([st], env)
+            except AnalysisError:
+                continue
+        env[S] = shift
+        got = m.ev(dc, env)
+        want_jj = {_NPlace(t): (_NPlace(t, d) if t in inf else "ONE") for t, d in zip(tags, shift) if d > 0}
+        want_ii = {_NPlace(t): (_NPlace(t, -d) if t in inf else "ONE") for t, d in zip(tags, shift) if d < 0}
+        verdicts.add("H_jj" if got == want_jj and got != want_ii else "H_ii" if got == want_ii and got != want_jj else
+                     "both" if got == want_jj == want_ii else f"other: shift {shift} -> {got}")
+    verdicts.discard("both")
+    table = verdicts.pop() if len(verdicts) == 1 else "; ".join(sorted(verdicts))
+    return {"table": table}
+
+
 def rule_solve_scalar(rep: Report, repo: Repo):
     """H_ii V - V H_jj = Y term by term:  H_ii(N) (a†)^m v(N) a^p - (a†)^m v(N) a^p H_jj(N)
     = (a†)^m [H_ii(N + m) - H_jj(N + p)] v(N) a^p   (fermions/spins: N -> 1 on the side that carries the operator).
@@ -1097,7 +1158,7 @@ def rule_solve_scalar(rep: Report, repo: Repo):
         it = gen.iter
         if not (isinstance(it, ast.Call) and call_name(it) == "zip" and len(it.args) == 2 and norm(it.args[0]) == S
                 and norm(it.args[1]).endswith("operators") and len(tn) == 2):
-            raise AnalysisError(R, f"solve_scalar: shift comprehension iterates `{norm(it)[:60]}`")
+            return _shift_table_on_model(repo, f, dc, S, R)
         delta, op = tn
         filt = [norm(canon(c)).replace(delta, "delta") for c in gen.ifs]
         val = dc.value
@@ -1111,9 +1172,9 @@ def rule_solve_scalar(rep: Report, repo: Repo):
         raise AnalysisError(R, "solve_scalar: shifted energies not found")
     jj = shift_info(shift_nodes["H_jj"][0])
     ii = shift_info(shift_nodes["H_ii"][0])
-    ok = jj["filter"] in (["delta > 0"], ["0 < delta"]) and jj["sign"] == "+" and jj["binary"] in _PLUS1
+    ok = jj["table"] == "H_jj" if "table" in jj else (jj["filter"] in (["delta > 0"], ["0 < delta"]) and jj["sign"] == "+" and jj["binary"] in _PLUS1)
     rep.check(ok, R, "second_quantization::solve_scalar annihilation powers (delta > 0) shift H_jj by N -> N + delta (binary modes -> 1)", str(jj), loc(shift_nodes["H_jj"][1]))
-    ok = ii["filter"] in (["delta < 0"], ["0 > delta"]) and ii["sign"] == "-" and ii["binary"] in _PLUS1
+    ok = ii["table"] == "H_ii" if "table" in ii else (ii["filter"] in (["delta < 0"], ["0 > delta"]) and ii["sign"] == "-" and ii["binary"] in _PLUS1)
     rep.check(ok, R, "second_quantization::solve_scalar creation powers (delta < 0) shift H_ii by N -> N - delta (binary modes -> 1)", str(ii), loc(shift_nodes["H_ii"][1]))
     # diagonal entries: half of the terms + minus the adjoint
     comp = {}
@@ -1324,6 +1385,32 @@ def rule_kpm_numerics(rep: Report, repo: Repo):
             and isinstance(tst.comparators[0], ast.Name)):
         raise AnalysisError(R, f"kpm.greens_function: loop condition `{norm(lp.test)}` not understood")
     RES = tst.comparators[0].id
+    # the threshold is the caller's: `atol` is the parameter, never rebound inside the function
+    rebinds = [n for n in ast.walk(g) if isinstance(n, (ast.Assign, ast.AugAssign, ast.AnnAssign)) and any(
+        isinstance(x, ast.Name) and x.id == "atol" and isinstance(x.ctx, ast.Store) for t in (n.targets if isinstance(n, ast.Assign) else [n.target]) for x in ast.walk(t))]
+    if "atol" not in [a.arg for a in g.args.args + g.args.kwonlyargs]:
+        raise AnalysisError(R, "kpm.greens_function: no `atol` parameter")
+    def loosens(n_):
+        v_ = getattr(n_, "value", None)
+        if isinstance(n_, ast.AugAssign):
+            return True if isinstance(n_.op, (ast.Add, ast.Mult)) else None
+        if isinstance(v_, ast.Call) and call_name(v_) in ("float", "abs", "np.float64") and len(v_.args) == 1 and norm(v_.args[0]) == "atol":
+            return False
+        if isinstance(v_, ast.Call) and call_name(v_) in ("min", "np.minimum") and any(norm(a_) == "atol" for a_ in v_.args):
+            return False
+        if isinstance(v_, ast.Call) and call_name(v_) in ("max", "np.maximum") and any(norm(a_) == "atol" for a_ in v_.args):
+            return True
+        return None
+    verdicts = [loosens(n_) for n_ in rebinds]
+    if any(v_ is None for v_ in verdicts):
+        raise AnalysisError(R, f"kpm.greens_function: `{norm(rebinds[verdicts.index(None)])[:70]}` rebinds the requested accuracy: not understood")
+    rebinds = [n_ for n_, v_ in zip(rebinds, verdicts) if v_]
+    if rebinds:
+        rep.fail(R, f"kpm::greens_function replaces the requested accuracy before the refinement loop: `{norm(rebinds[0])[:90]}`",
+                 "the loop leaves when the residual of (E - H) x = v is below `atol`; with a loosened threshold the solution misses the accuracy "
+                 "the caller asked for, and no convergence warning is raised (that one only fires when max_moments is exceeded)", loc(rebinds[0]))
+    else:
+        rep.ok(R, "kpm::greens_function compares the residual with the caller's atol", "`atol` is not rebound", loc(lp))
     res = stores.get(RES, [])
     ok = False
     detail = "missing"
